@@ -133,6 +133,25 @@ Definition out_kind (o : out val) : string :=
 
 Definition root_node (u : string * ty) : node := parse_ast_decl (pkg_of (fst u)) (imp_of (fst u)) (fst u) (snd u).
 
+(* does the path meet (pass through, or end at) a slice of uint8 that is not a []byte node?  Go cannot tell *[]uint8 from
+   *[]byte: there a *[]byte source is a pointer to the container itself (the value.( *T) replacement branch, outside the
+   modelled domain), whatever the rest of the path *)
+Fixpoint meets_u8 (n : node) (path : list string) {struct path} : bool :=
+  (match n_typ n, n_slct n with
+   | typeSlice, Some en => negb (is_bytes_node n) && GenC08.is_u8_elem en
+   | _, _ => false
+   end) ||
+  match path with
+  | [] => false
+  | seg :: r =>
+    match n_typ n with
+    | typeStruct => match find (fun c => String.eqb (n_name c) seg) (n_chld n) with Some c => meets_u8 c r | None => false end
+    | typeMap => match n_mapv n with Some vn => meets_u8 vn r | None => false end
+    | typeSlice => match n_slct n with Some en => meets_u8 en r | None => false end
+    | typeBasic => false
+    end
+  end.
+
 (* the two lines of one call *)
 Definition line_pair (id uname : string) (n : node) (v : val) (path : list string) (ptag extra : string)
   (ptr : bool) (s : src) (buf : bool) : list string :=
@@ -155,7 +174,9 @@ Definition case_lines (ui : nat) (u : string * ty) : list string :=
         let '(ci, (ptr, s, buf)) := ic in
         let id := fst u ++ "." ++ nat_to_string vi ++ "." ++ nat_to_string pi ++ "." ++ nat_to_string ci in
         line_pair id (fst u) n v path ptag "" ptr s buf)
-      (let ps := picks n v path (ui + vi * 7 + pi * 3) in combine (seqn (List.length ps)) ps))
+      (let ps := filter (fun p : bool * src * bool =>
+                           match p with (true, SrcBytes _, _) => negb (meets_u8 n path) | _ => true end)
+                        (picks n v path (ui + vi * 7 + pi * 3)) in combine (seqn (List.length ps)) ps))
     (let ps := paths n v in combine (seqn (List.length ps)) ps))
   (combine (seqn (List.length (variants n))) (variants n)).
 
